@@ -267,6 +267,32 @@ def Stack.sliceTime (s : Stack) (pages : List Page) (a b : Bound) (c : Option In
   let b' ← s.timeToIndex pages false b
   some (s.sliceFrames a' b' c)
 
+/-! ### programs of indexing operations -/
+
+/-- One indexing operation on a stack (the tether lives beside the stack, see `TStack`). -/
+inductive Op where
+  | frame (f : Item)
+  | crop (x0 x1 y0 y1 : Option Int)
+  | tuple (items : List Item)
+  | time (a b : Bound) (c : Option Int)
+deriving Repr, DecidableEq
+
+/-- `none`: a time-like bound could not be resolved (a visible frame that is not a page — never for a stack the code builds). -/
+def Stack.applyOp (pages : List Page) (s : Stack) : Op → Option (Except Err Stack)
+  | .frame f => some (s.frameItem f)
+  | .crop x0 x1 y0 y1 => some (s.cropPixels x0 x1 y0 y1)
+  | .tuple items => some (s.getitemTuple items)
+  | .time a b c => s.sliceTime pages a b c
+
+/-- A program: the operations one after the other, stopping at the first exception. -/
+def Stack.runOps (pages : List Page) : Stack → List Op → Option (Except Err Stack)
+  | s, [] => some (.ok s)
+  | s, op :: rest =>
+    match s.applyOp pages op with
+    | none => none
+    | some (.error e) => some (.error e)
+    | some (.ok s') => Stack.runOps pages s' rest
+
 /-! ### tether geometry (generic over the number type: executed at `Float`, proved at `ℝ`) -/
 
 section tether
@@ -609,6 +635,22 @@ def floorInt (x : Float) : Int := (Float.floor x).toInt64.toInt
 def withRoi (t : TStack) (r : Except Err Stack) : Except Err TStack :=
   r.map fun s => ⟨s, t.teth.withNewOffsets (ofInt s.roi.xMin) (ofInt s.roi.yMin), t.cal⟩
 
+/-- The indexing operations of a program token (`s`, `i`, `c`, `g`, `t` of `step`). -/
+def op? (tok : String) : Option Op :=
+  match tok.splitOn "," with
+  | ["s", a, b, c] => do
+    let a ← optInt? a; let b ← optInt? b; let c ← optInt? c
+    some (.frame (.slice a b c))
+  | ["i", k] => (int? k).map fun k => .frame (.int k)
+  | ["c", a, b, c, d] => do
+    let a ← optInt? a; let b ← optInt? b; let c ← optInt? c; let d ← optInt? d
+    some (.crop a b c d)
+  | "g" :: items => (items.mapM item?).map .tuple
+  | ["t", a, b, c] => do
+    let a ← bound? a; let b ← bound? b; let c ← optInt? c
+    some (.time a b c)
+  | _ => none
+
 /-- One step of a program.
   `s,a,b,c`       frame slice (`N` = None)        `i,k`   integer index
   `c,x0,x1,y0,y1` `crop_by_pixels`                 `u,…`   the same with the pinned (F2) arithmetic
@@ -619,25 +661,9 @@ def withRoi (t : TStack) (r : Except Err Stack) : Except Err TStack :=
   `k,w`           the stack behind `to_kymo(w)` (timing checks, floors of the processed tether ends, window) -/
 def step (pages : List Page) (t : TStack) (op : String) : Option (Except Err TStack) :=
   match op.splitOn "," with
-  | ["s", a, b, c] => do
-    let a ← optInt? a; let b ← optInt? b; let c ← optInt? c
-    some ((t.stk.sliceFrames a b c).map fun s => { t with stk := s })
-  | ["i", k] => do
-    let k ← int? k
-    some ((t.stk.index k).map fun s => { t with stk := s })
-  | ["c", a, b, c, d] => do
-    let a ← optInt? a; let b ← optInt? b; let c ← optInt? c; let d ← optInt? d
-    some (withRoi t (t.stk.cropPixels a b c d))
   | ["u", a, b, c, d] => do
     let a ← optInt? a; let b ← optInt? b; let c ← optInt? c; let d ← optInt? d
     some (withRoi t (t.stk.cropPixelsUnfixed a b c d))
-  | "g" :: items => do
-    let items ← items.mapM item?
-    some (withRoi t (t.stk.getitemTuple items))
-  | ["t", a, b, c] => do
-    let a ← bound? a; let b ← bound? b; let c ← optInt? c
-    let r ← t.stk.sliceTime pages a b c
-    some (r.map fun s => { t with stk := s })
   | ["T", x1, y1, x2, y2] => do
     let x1 ← float? x1; let y1 ← float? y1; let x2 ← float? x2; let y2 ← float? y2
     some (.ok { t with teth := t.teth.withTether ⟨x1, y1⟩ ⟨x2, y2⟩ })
@@ -655,7 +681,14 @@ def step (pages : List Page) (t : TStack) (op : String) : Option (Except Err TSt
       | none => some (.error .value)
       | some (a, b) =>
         some (withRoi t (t.stk.kymoStack (floorInt a.x) (floorInt a.y) (floorInt b.x) (floorInt b.y) w))
-  | _ => none
+  | _ => do
+    -- the indexing operations go through the typed `Op` / `Stack.applyOp`; the ROI-changing ones move the tether origin
+    let o ← op? op
+    let r ← t.stk.applyOp pages o
+    match o with
+    | .crop .. => some (withRoi t r)
+    | .tuple _ => some (withRoi t r)
+    | _ => some (r.map fun s => { t with stk := s })
 
 def runProg (pages : List Page) : TStack → List String → Option (Except Err TStack)
   | t, [] => some (.ok t)
@@ -693,6 +726,8 @@ def points? (s : String) : Option (List (Pt Float)) :=
       shows up in the final image: `<state> x,y;x,y|x,y;x,y|…`
   `c07.run <h> <w> [starts] [stops] [expStops] <legacy T/F> op…`   run a program on a fresh stack of
       `len starts` pages of `h × w` pixels, answer the final state (or the first error)
+  `c07.ops <h> <w> [starts] [stops] [expStops] op…`   a program of indexing operations only (`s`, `i`, `c`, `g`, `t`) through
+      the typed `Stack.runOps`: `ok <frames> <roi>` or the first error
   `c07.image <C> <h> <w> [starts] [stops] [expStops] <legacy> op…`   the program as for `c07.run` on pages of the
       harness encoding; answers the pixel values of `get_image()` per stored sample: `image <frame/frame/…>|<sample 1>|…`
   `c07.kymo <C> <h> <w> [starts] [stops] [expStops] <legacy> op… k,<hw>[,sum|max|min]`   the program as for `c07.run` (pages of the
@@ -723,6 +758,13 @@ def handle : List String → Option String
     | .ok t =>
       let landed := (mats.zip pts).map fun (m, ps) => ps.map fun r => t.teth.land m r
       some (showState t pages legacy ++ " " ++ "|".intercalate (landed.map fun ps => ";".intercalate (ps.map showPt)))
+    | .error e => some e.show
+  | "c07.ops" :: h :: w :: starts :: stops :: exps :: prog => do
+    let h ← nat? h; let w ← nat? w
+    let pages ← pages? starts stops exps
+    let ops ← prog.mapM op?
+    match ← Stack.runOps pages ⟨0, pages.length, 1, ⟨0, w, 0, h⟩⟩ ops with
+    | .ok s => some ("ok " ++ showIntList s.frames ++ " " ++ showRoi s.roi)
     | .error e => some e.show
   | "c07.image" :: nch :: h :: w :: starts :: stops :: exps :: legacy :: prog => do
     let nch ← nat? nch; let h ← nat? h; let w ← nat? w
